@@ -23,9 +23,9 @@ type c09Part struct {
 
 type c09Scenario struct {
 	EnableNoResume   bool       `json:"enabled_without_resume"`
-	MandatorySession bool       `json:"server_requires_session,omitempty"`     // legacy session establishment is mandatory on every connection
+	MandatorySession bool       `json:"server_requires_session,omitempty"`      // legacy session establishment is mandatory on every connection
 	MiddleUnmanaged  bool       `json:"second_connection_without_sm,omitempty"` // the reconnection lands on a server without stream management: a fresh unmanaged session in between
-	FirstUnmanaged   bool       `json:"first_connection_without_sm,omitempty"` // the first server does not offer stream management: stanzas flow, nothing is enabled
+	FirstUnmanaged   bool       `json:"first_connection_without_sm,omitempty"`  // the first server does not offer stream management: stanzas flow, nothing is enabled
 	Client           ClientOpts `json:"client"`
 	Parts            []c09Part  `json:"parts"`
 	Seg              int        `json:"segmentation"`
